@@ -304,7 +304,7 @@ func ruleReactRelease(r *core.Reporter) {
 				res := ir.Reach([]ir.Pt{other}, ir.Opts{})
 				okErr := true
 				for in := range res.Reached {
-					if ret, isRet := in.(*ssa.Return); isRet && len(ret.Results) == 1 && ir.IsNilConst(ret.Results[0]) {
+					if ret, isRet := in.(*ssa.Return); isRet && len(ret.Results) == 1 && ir.ReturnsNil(ret, 0) {
 						// a nil return reachable from the not-found side that is not also reachable… it is reachable only if shared
 						if !ir.Reach([]ir.Pt{start}, ir.Opts{}).Reached[in] {
 							okErr = false
@@ -341,7 +341,7 @@ func closedCheckFor(fn *ssa.Function, ctxField string) bool {
 		return false
 	}
 	for _, ret := range ir.Returns(fn) {
-		if len(ret.Results) != 1 || !ir.IsNilConst(ret.Results[0]) {
+		if len(ret.Results) != 1 || !ir.ReturnsNil(ret, 0) {
 			continue
 		}
 		ok := false
@@ -594,7 +594,7 @@ func ruleReactNonblock(r *core.Reporter) {
 			all := true
 			cnt := 0
 			for _, ret := range ir.Returns(fn) {
-				if len(ret.Results) == 1 && ir.IsNilConst(ret.Results[0]) {
+				if len(ret.Results) == 1 && ir.ReturnsNil(ret, 0) {
 					cnt++
 					if _, g := ir.GuardedBy(fn, ir.Entry(fn), ret, true, func(a ir.Atom) bool { return a.V == ld }); !g {
 						all = false
